@@ -48,7 +48,13 @@ impl Op {
             Op::Mid(m) => p.header.message_id = *m,
             Op::Token(t) => p.set_token(t.clone()),
             Op::Payload(b) => p.payload = b.clone(),
-            Op::Add(k, v) => p.add_option(CoapOption::from(*k), v.clone()),
+            Op::Add(k, v) => match (v.len() + *k as usize) % 4 {
+                // the generic writers of coap-message 0.2 / 0.3 are public ways to add an option too (Packet is a
+                // SeekWritableMessage: any order, repeats kept in order of addition)
+                1 => { use coap_message::MinimalWritableMessage; MinimalWritableMessage::add_option(p, CoapOption::from(*k), v); }
+                2 => { use coap_message_0_3::MinimalWritableMessage; MinimalWritableMessage::add_option(p, CoapOption::from(*k), v).unwrap(); }
+                _ => p.add_option(CoapOption::from(*k), v.clone()),
+            },
             Op::Set(k, vs) => p.set_option(CoapOption::from(*k), vs.iter().cloned().collect::<LinkedList<_>>()),
             Op::Clear(k) => p.clear_option(CoapOption::from(*k)),
             Op::ClearAll => p.clear_all_options(),
@@ -89,6 +95,9 @@ pub fn exec10(input: &[u64]) -> Vec<u64> {
     let mut out = vec![0u64];
     wr_packet(&mut out, &p);
     if let Some(bs) = res_bytes(&mut out, p.to_bytes_unlimited()) {
+        let limited = p.to_bytes();
+        let consistent = if bs.len() <= Packet::MAX_SIZE { limited.as_ref().ok() == Some(&bs) } else { limited.is_err() };
+        if !consistent { return vec![3, bs.len() as u64]; }   // no well-formed observation starts with 3: the oracle rejects it
         match Packet::from_bytes(&bs) {
             Ok(q) => { out.push(0); wr_packet(&mut out, &q); }
             Err(_) => out.push(1),
@@ -105,6 +114,14 @@ pub fn exec20(input: &[u64]) -> Vec<u64> {
     let mut out = Vec::new();
     match Packet::from_bytes(&bs) {
         Ok(p) => {
+            // "no two different accepted datagrams parse to equal messages" is also a statement about ==
+            let mut more = p.clone(); more.add_option(CoapOption::from(65001), vec![1]);
+            let mut other_payload = p.clone(); other_payload.payload.push(0);
+            let mut fewer = p.clone();
+            let last = fewer.options().map(|(k, _)| *k).last();
+            if let Some(k) = last { fewer.clear_all_options(); for (n, vs) in p.options() { if *n != k { fewer.set_option(CoapOption::from(*n), vs.clone()); } } }
+            let eq_ok = p == p.clone() && p != more && more != p && p != other_payload && (last.is_none() || (p != fewer && fewer != p));
+            if !eq_ok { return vec![3]; }   // not a well-formed observation: the oracle rejects it
             out.push(0);
             wr_packet(&mut out, &p);
             res_bytes(&mut out, p.to_bytes_unlimited());
@@ -133,6 +150,8 @@ const NUMS: [u16; 14] = [0, 1, 11, 12, 13, 14, 255, 256, 257, 258, 268, 269, 270
 const GAPS: [u16; 13] = [0, 1, 12, 13, 14, 255, 256, 257, 268, 269, 270, 1000, 65000];
 const LENS: [usize; 9] = [0, 1, 12, 13, 14, 268, 269, 270, 300];
 const BIGLENS: [usize; 5] = [1000, 65535, 65536, 65803, 65804];
+/// values of the one- and two-byte extension fields that exercise every bit (and the carries around 255/256)
+const EXT2: [usize; 22] = [0, 1, 2, 0xFE, 0xFF, 0x100, 0x101, 0x155, 0x1FF, 0x200, 0x2AA, 0x3FF, 0x400, 0x7FF, 0x1000, 0x5555, 0x7FFF, 0x8000, 0xAAAA, 0xFEF2, 0xFEF3, 0xFFFF];
 const CODES: [u64; 8] = [0, 1, 2, 0x45, 0x5F, 0x84, 0xFF, 0xA8];
 
 fn emit_ops(pol: &[u64; 3], ops: &[Op], emit: &mut dyn FnMut(Vec<u64>)) {
@@ -181,7 +200,18 @@ pub fn gen10(tier: &str, r: &mut Rng, emit: &mut dyn FnMut(Vec<u64>)) {
     for &l in BIGLENS.iter() { for &n in [11u16, 258].iter() {
         emit_ops(&pol, &[Op::Add(n, r.bytes(l))], emit);
     } }
+    // C'. every length 13..=268 (the whole one-byte extension) and the two-byte extension's bit patterns, as value
+    // lengths and as option-number gaps
+    for l in 13usize..=268 { emit_ops(&pol, &[Op::Add(11, r.bytes(l))], emit); }
+    for &x in EXT2.iter() {
+        emit_ops(&pol, &[Op::Add(7, r.bytes(269 + x))], emit);
+        if 269 + x <= 65535 { emit_ops(&pol, &[Op::Add((269 + x) as u16, vec![x as u8]), Op::Add(((269 + x) as u32 + 13).min(65535) as u16, vec![1])], emit); }
+    }
+    for g in 13u16..=268 { emit_ops(&pol, &[Op::Add(1, vec![]), Op::Add(1 + g, vec![g as u8])], emit); }
     emit_ops(&pol, &[Op::Add(11, r.bytes(65805))], emit);   // outside C01's domain (C04 decides it)
+    // C''. no payload, exactly at the default limit (one two-byte-extended option of 7 + L bytes after the 4-byte header)
+    for d in [-1i64, 0, 1] { let l = (Packet::MAX_SIZE as i64 - 7 + d) as usize; emit_ops(&pol, &[Op::Add(11, r.bytes(l))], emit); emit_ops(&pol, &[Op::Code(0), Op::Add(11, r.bytes(l)), Op::Payload(vec![1, 2])], emit); }
+    emit_ops(&pol, &[Op::Type(2), Op::Code(0)], emit);
     // D. header grid
     for ver in 0..4u8 { for ty in 0..4u8 { for tkl in 0..9usize { for &code in CODES.iter() {
         let mut ops = vec![Op::Ver(ver), Op::Type(ty), Op::Token(r.bytes(tkl)), Op::Code(code), Op::Mid(r.pick(&MIDS))];
@@ -293,7 +323,7 @@ pub fn gen20(tier: &str, r: &mut Rng, emit: &mut dyn FnMut(Vec<u64>)) {
         emit_bytes(&pol, &b, emit);
     } }
     // 6. prefixes and single-byte corruptions of well-formed messages
-    let nmsg = if thorough { 5000 } else { 300 };
+    let nmsg = if thorough { 1000 } else { 300 };
     let subst: [u8; 8] = [0x00, 0x0D, 0x0E, 0x0F, 0xD0, 0xE0, 0xF0, 0xFF];
     for _ in 0..nmsg {
         let ops = rand_ops(r, 10);
@@ -317,6 +347,22 @@ pub fn gen20(tier: &str, r: &mut Rng, emit: &mut dyn FnMut(Vec<u64>)) {
         if r.chance(1, 10) { b[0] = r.next() as u8; }
         for _ in 0..l { b.push(if r.chance(1, 3) { r.pick(&subst) } else if r.chance(1, 2) { r.below(0x30) as u8 } else { r.next() as u8 }); }
         emit_bytes(&pol, &b, emit);
+    }
+    // 8'. the extension fields' bit patterns, complete and cut one byte short
+    for &x in EXT2.iter() {
+        let vlen = 269 + x;
+        let mut b = vec![0x40u8, 0x01, 0, 1, 0xBE, (x >> 8) as u8, x as u8];
+        b.extend(r.bytes(vlen));
+        emit_bytes(&pol, &b, emit);
+        b.pop();
+        emit_bytes(&pol, &b, emit);
+        if vlen <= 65535 { emit_bytes(&pol, &[0x40u8, 0x01, 0, 1, 0xE0, (x >> 8) as u8, x as u8], emit); }
+    }
+    for x in 0..=255u8 {
+        let mut b = vec![0x40u8, 0x01, 0, 1, 0x1D, x];
+        b.extend(r.bytes(13 + x as usize));
+        emit_bytes(&pol, &b, emit);
+        emit_bytes(&pol, &[0x40u8, 0x01, 0, 1, 0xD0, x], emit);
     }
     // 8. long values across the 16-bit extension's upper end
     for vlen in [65535usize, 65536, 65803, 65804] {
@@ -431,6 +477,31 @@ pub fn gen40(tier: &str, r: &mut Rng, emit: &mut dyn FnMut(Vec<u64>)) {
         one(&p, mode, 0, emit);
         one(&p, 1, (4 + tl + pl) as u64, emit);
     } } } }
+    // an option number left with an EMPTY value list (clear_option) as the highest key, exactly at / around the limit
+    for tkl in [0usize, 4] { for extra in [0usize, 1, 7] {
+        let mut p = Packet::new();
+        p.set_token(r.bytes(tkl));
+        p.add_option(CoapOption::UriPath, b"sensors".to_vec());
+        p.add_option(CoapOption::UriQuery, b"q".to_vec());
+        p.clear_option(CoapOption::UriQuery);
+        if extra > 0 { p.payload = r.bytes(extra); }
+        let l = probe(&p).unwrap().len() as u64;
+        for lim in [l - 1, l, l + 1] { one(&p, 1, lim, emit); }
+        let mut q = p.clone(); q.payload = vec![];
+        let ln = probe(&q).unwrap().len() as i64;
+        q.payload = r.bytes((mx as i64 - ln - 1) as usize + extra.min(1));
+        one(&q, 0, 0, emit);
+    } }
+    // MessageClass::Reserved(0): the code byte of Empty, but the payload IS sent and counts
+    for pl in [1usize, 20, 44] { for d in [-1i64, 0, 1] {
+        let mut p = Packet::new();
+        p.header.code = coap_lite::MessageClass::Reserved(0);
+        p.payload = r.bytes(pl);
+        let l = probe(&p).unwrap().len() as i64;
+        one(&p, 1, (l + d) as u64, emit);
+        one(&p, 0, 0, emit);
+    } }
+    { let mut p = Packet::new(); p.header.code = coap_lite::MessageClass::Reserved(0); p.payload = r.bytes(mx as usize + 10); one(&p, 0, 0, emit); }
     // over-long option values are refused, with and without limit
     for vl in [65803usize, 65804, 65805, 65806, 131341, 131342] { for mode in [0u64, 1, 2] {
         let mut p = Packet::new();
